@@ -135,7 +135,8 @@ def up_of(name):
 
 
 def wire_existing(listing):
-    return [[l, s] for l, s in listing]
+    # _get_unique_sfn matches the tail patterns against the 8.3 name and the UPPER-CASED long name of every entry
+    return [[l.upper(), s] for l, s in listing]
 
 
 # ------------------------------------------------------------------ inputs
